@@ -21,6 +21,7 @@ import c03_util as U
 import c02 as C02
 import ext_layer            # extensibility layer (lib/ext_layer.py, notes/design/EXT.md)
 import setdef_layer         # SET / DEFAULT layer (lib/setdef_layer.py, notes/design/SetDef.md)
+import primb_layer          # restricted character strings (lib/primb_layer.py, notes/design/PrimB.md)
 import c03_tagmap as TM
 import c03_oerpos as P
 import c03_regions as RG
@@ -434,6 +435,7 @@ def main(tier):
     try:
         ext_layer.run_c03(run, rng, tier)
         setdef_layer.run_c03(run, rng, tier)
+        primb_layer.run_c03(run, rng, tier)
     finally:
         ext_layer.build, ext_layer.model_encode = orig_build, orig_encode
     t0 = time.time()
